@@ -358,6 +358,25 @@ func c13Run(c *core.Ctx, idx int) {
 		}
 		lines = util.Shuffle(c.Rng, lines)
 	}
+	// Rules whose $client value mixes names with addresses or networks.
+	type mixedClient struct {
+		host, name      string
+		inside, outside netip.Addr
+	}
+	var mixed []mixedClient
+	if c.Rng.Intn(3) == 0 {
+		for i, n := 0, 1+c.Rng.Intn(2); i < n; i++ {
+			m := mixedClient{host: c13Hosts[c.Rng.Intn(len(c13Hosts))], name: []string{"Mom", "kids", "cafe"}[c.Rng.Intn(3)]}
+			net := []string{"192.168.3.0/24", "10.1.0.0/16", "fe01::/64", "172.16.0.1"}[c.Rng.Intn(4)]
+			m.inside = map[string]netip.Addr{"192.168.3.0/24": netip.MustParseAddr("192.168.3.7"), "10.1.0.0/16": netip.MustParseAddr("10.1.2.3"), "fe01::/64": netip.MustParseAddr("fe01::1"), "172.16.0.1": netip.MustParseAddr("172.16.0.1")}[net]
+			m.outside = []netip.Addr{netip.MustParseAddr("8.8.8.8"), netip.MustParseAddr("192.168.4.1"), netip.MustParseAddr("2001:db8::5")}[c.Rng.Intn(3)]
+			neg := []string{"", "~"}[c.Rng.Intn(2)]
+			lines = append(lines, []string{"||", "@@||"}[c.Rng.Intn(2)]+m.host+"^$client="+neg+m.name+"|"+neg+net)
+			mixed = append(mixed, m)
+		}
+		lines = util.Shuffle(c.Rng, lines)
+		c.Event("histories_with_names_and_addresses_in_one_client_value", 1)
+	}
 	if c.Rng.Intn(2) == 0 {
 		// Longer than the 4 KiB read block, with rules straddling block
 		// boundaries (what is read depends on what was read before).
@@ -407,6 +426,18 @@ func c13Run(c *core.Ctx, idx int) {
 	}
 	for _, h := range c13Hosts[len(c13BaseHosts):] {
 		pool = append(pool, c13Op{Kind: "dns", Req: &gen.Req{HostnameReq: true, Host: h, DNSType: 1}})
+	}
+	for _, m := range mixed {
+		// Several devices behind one address, a device that is renamed, an
+		// unnamed one: the same host asked from the same address under
+		// different names, and the same name from different addresses.
+		for _, name := range []string{m.name, "", "Zed", m.name} {
+			for _, ip := range []netip.Addr{m.outside, m.inside} {
+				if c.Rng.Intn(3) > 0 {
+					pool = append(pool, c13Op{Kind: "dns", Req: &gen.Req{HostnameReq: true, Host: m.host, DNSType: 1, ClientName: name, ClientIP: ip}})
+				}
+			}
+		}
 	}
 	for i := 0; i < 8; i++ {
 		q := gen.RandomReq(c.Rng, 0)
@@ -550,6 +581,7 @@ func init() {
 		ID:    "C13",
 		Level: "exploration",
 		Rule: "per case one list of 15..65 lines (rules with per-request modifiers $client/$ctag/$dnstype, $dnsrewrite rules and exceptions, badfilter twins, regexps that do not compile, cosmetic rules, hosts lines, referrer-level exceptions), String- or File-backed, and one history of 40..160 (thorough 50..400) operations drawn with heavy repetition from 26 distinct DNS / web / MatchAll / cosmetic queries (consecutive DNS queries with and without client name, address, tags, record type) interleaved with DNSRewrites, DNSRewritesAll, GetBasicResult, GetCosmeticOption, GetDNSBasicRule and NewMatchingResult on OLD results; " +
+			"one history in three has rules whose $client value mixes names and networks, asked from one address under several names and from several addresses under one name; " +
 			"oracle: every answer == the answer of a fresh engine over the same bytes (memoised per distinct query), and every kept result object re-snapshotted after every later operation == its snapshot at return; plus one long history over 1 500 (thorough 75 000) rules in which nearly all of them are retrieved by queries that contain one rule's key twice; non-trivial = every history; distinct by list and length",
 		Assumptions: []string{
 			"snapshots cover the exported state of results and rules (texts, flags, list ids, shortcut, rewrite values, slice contents and order)",
